@@ -495,6 +495,17 @@ class Ctx(object):
                         if any(e not in blocks for e in edges):
                             lp.driver_bb = b
                             lp.iter_term = self.eng.operand(body, b, TERM_IDX, t['args'][0])
+                            # an index loop over the length of a collection (or the smallest of several) walks it (them, zipped)
+                            it0 = lp.iter_term
+                            muts = []
+                            while it0.tag == 'mut':
+                                it0 = it0[1]
+                            from .terms import index_view, T as _T
+                            v_ = index_view(it0) if it0.tag == 'range' else None
+                            if v_ is not None:
+                                lp.index_range = it0
+                                # (from 0: the loop variable is the enumerate counter; from k > 0 it is not, only the elements are)
+                                lp.iter_term = _T('enumerate', v_) if (it0[1].tag == 'const' and it0[1][1] == 0) else v_
                             lp.driver_switch = cur
                             break
             ok_exits = [(a, b) for a, b in lp.exits if not self.rejecting(body, b)]
